@@ -65,6 +65,7 @@ type op struct {
 	Small  bool   `json:"small,omitempty"`  // reinst: compile+instantiate in one step (code closed with the module)
 	Cfg    bool   `json:"cfgstart,omitempty"`
 	Stack  bool   `json:"callwithstack,omitempty"` // every guest call of this op goes through CallWithStack
+	Ctx    int    `json:"ctx,omitempty"`           // context flavour of the calls (see ctxNames)
 	Steps  []step `json:"steps,omitempty"`
 
 	// filled by the model
@@ -103,6 +104,9 @@ func (o *op) desc() string {
 	fmt.Fprintf(&sb, "%s[%d]", o.Kind, o.Slot)
 	if o.Stack {
 		sb.WriteString("(CallWithStack)")
+	}
+	if o.Ctx != ctxBackground {
+		fmt.Fprintf(&sb, "(ctx%d)", o.Ctx)
 	}
 	switch o.Kind {
 	case "store":
@@ -828,6 +832,34 @@ func (g *gen) reinst(o *op) *op {
 	return o
 }
 
+// pickCtx chooses the context flavour of an operation's calls. The short
+// timeout is not used for operations that can legitimately take long.
+func pickCtx(r *core.Rng, o *op) int {
+	if o.Kind == "reinst" || o.Kind == "close" {
+		return ctxBackground
+	}
+	slow := o.Kind == "rec" && o.D >= 400
+	for _, s := range o.Steps {
+		if s.Leaf != nil && s.Leaf.Kind == "rec" && s.Leaf.RecD >= 400 {
+			slow = true
+		}
+	}
+	switch w := r.Intn(100); {
+	case w < 25:
+		return ctxBackground
+	case w < 55:
+		return ctxCancelAfter
+	case w < 63:
+		if slow {
+			return ctxLongTimeoutCancelAfter
+		}
+		return ctxShortTimeout
+	case w < 80:
+		return ctxLongTimeoutCancelAfter
+	}
+	return ctxValueWrappedCancelAfter
+}
+
 // history generates the whole history for a case and runs the model over it.
 func genHistory(hc histCase) []*op {
 	r := core.NewRng(int64(hc.Seed), 6)
@@ -856,6 +888,7 @@ func genHistory(hc histCase) []*op {
 	for i := 0; i < hc.N; i++ {
 		o := g.next()
 		o.Stack = r.Chance(1, 3)
+		o.Ctx = pickCtx(r, o)
 		g.m.apply(o)
 		ops = append(ops, o)
 	}
